@@ -7,7 +7,10 @@ Record snap := mksnap {
   sn_live : list lrow; sn_vt : vtable; sn_av : list arow; sn_alive : list (Z * list Z);
   sn_tx : list Z; sn_chg : list (Z * nat); sn_uows : nat }.
 
-Record core_case := mkcase { cc_cfg : cfg; cc_evs : list ev; cc_snaps : list snap; cc_exc : bool }.
+Record core_case := mkcase {
+  cc_cfg : cfg; cc_evs : list ev; cc_snaps : list snap; cc_exc : bool;
+  cc_outdiff : nat;     (* operations whose outcome (ok / error / skipped) differs from the unversioned twin run *)
+  cc_livediff : bool }. (* final application tables differ from the unversioned twin run                     *)
 
 Definition lrow_eqb (a b : lrow) : bool :=
   (l_cls a =? l_cls b)%nat && pk_eqb (l_key a) (l_key b) && list_eqb val_eqb (l_vals a) (l_vals b).
